@@ -321,7 +321,7 @@ func TestC14Known(t *testing.T) {
 			msg := truncStr(strings.ReplaceAll(err.Error(), "\n", " "), 260)
 			class := "plan-reuses-key"
 			if !strings.Contains(msg, "consensus-key index") {
-				class = "plan-reuses-key/fails-differently"
+				class = "plan-reuses-key-fails-differently"
 			}
 			fmt.Printf("KNOWN-FINDING-CANDIDATE: property=C14 class=%s plan names a consensus key that the authority gave to another operator earlier in the same block: %s\n", class, msg)
 			rec.KnownFinding(class + " (key of a validator added in the plan's block): " + msg)
